@@ -459,6 +459,86 @@ theorem C07_fit_batches {ρ : Type} (data : List ρ) (bases : Option (List (List
     refine ⟨z, fun bs' h => (by cases h; exact hz), fun h => (by cases h), ?_, heff, fun h => (by subst h; rfl), hk⟩
     simp [epochBatches, prepare, hnb, hz, bind, Except.bind, pure, Except.pure]
 
+/-- **C07.5c (fit-level corollary)** One epoch of `fit(data, pos_batch_size, neg_batch_size, input_bases)` with NOTHING to assemble by
+hand: for `N ≥ 1` rows, `pos_batch_size ≥ 1`, any `neg_batch_size` (given, `None` or `0`), any permutation `perm` that `randperm(N)` can
+return, bases (if given) with one row per sample and at least one all-`Z` row, and any `randint` result `negIdx` of the size and range
+`fit` requests (over `z = extract_refbasis_samples(data, bases)` with bases; over the `N` rows without bases when the sizes differ):
+`epochBatches` succeeds and
+(1) the positive batches concatenate to the `perm`-reindexed data, a permutation of the rows (multiset);
+(2) there are `⌈N/B⌉` batches, batch `j` has `min(B, N − jB) ∈ [1, B]` rows, a bases batch as many as its positive batch;
+(3) with bases, row `i` of batch `j` and row `i` of its bases batch are `(data[p], bases[p])` for the same `p` (the slices of `perm`);
+(4) every negative row is a data row — with bases a row of `z`, i.e. `data[k]` for some `k` whose basis row is all `Z`; negative batches equal
+the positive ones (no bases, equal sizes) or have exactly the effective `neg_batch_size` rows. -/
+theorem C07_fit_epoch {ρ : Type} (data : List ρ) (bases : Option (List (List String))) (posB : Nat) (negB : Option Nat)
+    (perm negIdx : List Nat) (hN : 1 ≤ data.length) (hB : 1 ≤ posB) (hperm : perm.Perm (List.range data.length))
+    (hbases : ∀ bs, bases = some bs → bs.length = data.length ∧ (∃ row ∈ bs, ∀ s ∈ row, s = "Z") ∧
+      ∀ z, extractRefbasis data bs = .ok z → IsRandint z.length (ceilDiv data.length posB * effNegB negB posB) negIdx)
+    (hnobases : bases = none → effNegB negB posB ≠ posB →
+      IsRandint data.length (ceilDiv data.length posB * effNegB negB posB) negIdx) :
+    ∃ z out, (∀ bs, bases = some bs → extractRefbasis data bs = .ok z) ∧
+      epochBatches data bases posB negB perm negIdx = .ok out ∧
+      Valid data bases z perm negIdx posB (effNegB negB posB) (ceilDiv data.length posB) ∧
+      (Rows data perm (out.batches.map (·.pos)).flatten ∧ ((out.batches.map (·.pos)).flatten).Perm data) ∧
+      (out.batches.length = ceilDiv data.length posB ∧
+        ∀ (j : Nat) (b : Batch ρ), out.batches[j]? = some b →
+          b.pos.length = min posB (data.length - j * posB) ∧ 1 ≤ b.pos.length ∧ b.pos.length ≤ posB ∧
+          ∀ bb, b.bases = some bb → bb.length = b.pos.length) ∧
+      (∀ bs, bases = some bs → ∃ idxB : List (List Nat), idxB.flatten = perm ∧ idxB.length = out.batches.length ∧
+        ∀ (j : Nat) (idx : List Nat) (b : Batch ρ), idxB[j]? = some idx → out.batches[j]? = some b →
+          ∃ bb, b.bases = some bb ∧ ∀ (i p : Nat), idx[i]? = some p →
+            ∃ (r : ρ) (β : List String), b.pos[i]? = some r ∧ data[p]? = some r ∧ bb[i]? = some β ∧ bs[p]? = some β) ∧
+      (∀ b ∈ out.batches, ∀ r ∈ b.neg, r ∈ data ∧ ∀ bs, bases = some bs →
+        r ∈ z ∧ ∃ (k : Nat) (row : List String), data[k]? = some r ∧ bs[k]? = some row ∧ ∀ s ∈ row, s = "Z") ∧
+      (bases = none → effNegB negB posB = posB → ∀ b ∈ out.batches, b.neg = b.pos) ∧
+      ((bases ≠ none ∨ effNegB negB posB ≠ posB) → ∀ b ∈ out.batches, b.neg.length = effNegB negB posB) := by
+  obtain ⟨z, hz, hznone, hep, heff, _, _⟩ := C07_fit_batches data bases posB negB perm negIdx hB
+    (fun bs h => (hbases bs h).1)
+  -- facts about z when bases are given
+  have hzfacts : ∀ bs, bases = some bs → z.Sublist data ∧ 1 ≤ z.length ∧
+      ∀ r, r ∈ z ↔ ∃ (k : Nat) (row : List String), data[k]? = some r ∧ bs[k]? = some row ∧ ∀ s ∈ row, s = "Z" := by
+    intro bs hb
+    obtain ⟨hl, ⟨row, hrow, hallz⟩, _⟩ := hbases bs hb
+    obtain ⟨z', hz', hsub, _, hmem⟩ := (C07_refbasis data bs).1 hl
+    have : z' = z := by
+      have := hz bs hb
+      rw [hz'] at this
+      exact Except.ok.inj this
+    subst this
+    refine ⟨hsub, ?_, hmem⟩
+    obtain ⟨k, hk⟩ := List.mem_iff_getElem?.mp hrow
+    have hklt : k < data.length := by
+      have := (List.getElem?_eq_some_iff.mp hk).1
+      omega
+    have hmemz : data[k] ∈ z' := (hmem data[k]).2 ⟨k, row, List.getElem?_eq_getElem hklt, hk, hallz⟩
+    exact List.length_pos_of_mem hmemz
+  have v : Valid data bases z perm negIdx posB (effNegB negB posB) (ceilDiv data.length posB) :=
+    { hN := hN, hB := hB, hnB := heff, hperm := hperm, hnb := rfl,
+      hbases := fun bs hb => ⟨(hbases bs hb).1, (hzfacts bs hb).2.1, (hbases bs hb).2.2 z (hz bs hb)⟩,
+      hnobases := fun hb hne => hnobases hb hne }
+  obtain ⟨out, hs, hrows, hpermrows, _⟩ := C07_partition v
+  obtain ⟨out2, hs2, hlen, hsz⟩ := C07_sizes v
+  obtain ⟨out3, hs3, hnegmem, hmirror, hneglen⟩ := C07_negative v
+  have e2 : out2 = out := by rw [hs] at hs2; exact (Except.ok.inj hs2).symm
+  have e3 : out3 = out := by rw [hs] at hs3; exact (Except.ok.inj hs3).symm
+  rw [e2] at hlen hsz
+  rw [e3] at hnegmem hmirror hneglen
+  refine ⟨z, out, hz, by rw [hep]; exact hs, v, ⟨hrows, hpermrows⟩, ⟨hlen, fun j b hb => ?_⟩, fun bs hb => ?_,
+    fun b hb r hr => ?_, hmirror, hneglen⟩
+  · obtain ⟨a1, a2, a3, _, _, a6⟩ := hsz j b hb
+    exact ⟨a1, a2, a3, a6⟩
+  · obtain ⟨out4, hs4, idxB, hflat, hlenB, hpair⟩ := C07_own_basis bs hb v
+    have e4 : out4 = out := by rw [hs] at hs4; exact (Except.ok.inj hs4).symm
+    rw [e4] at hlenB hpair
+    refine ⟨idxB, hflat, hlenB, fun j idx b hi hbj => ?_⟩
+    obtain ⟨bb, hbb, _, _, hpt⟩ := hpair j idx b hi hbj
+    exact ⟨bb, hbb, hpt⟩
+  · obtain ⟨hn1, hn2⟩ := hnegmem b hb r hr
+    refine ⟨?_, fun bs hbs => ?_⟩
+    · cases hbcase : bases with
+      | none => exact hn1 hbcase
+      | some bs => exact (hzfacts bs hbcase).1.subset (hn2 bs hbcase)
+    · exact ⟨hn2 bs hbs, ((hzfacts bs hbs).2.2 r).1 (hn2 bs hbs)⟩
+
 /-- **C07.5b** Frame statement: `fit`'s data flow (preamble + one epoch) only *reads* the caller's data and bases
 objects and allocates new ones — every object that existed before is unchanged afterwards, and every batch handed to
 `compute_batch_gradients` is a view of a freshly allocated object, so it shares no storage with anything the caller
@@ -520,6 +600,24 @@ example : Valid (ρ := Nat) [10, 20, 10] (some [["Z", "Z"], ["X", "Z"], ["Z", "Z
 example : (shuffleData (ρ := Nat) [2, 0, 1] [0, 0, 0, 0, 0, 0] 2 3 2 [10, 20, 30]
       (some [["Z", "Z"], ["X", "Z"], ["Z", "Y"]]) [10]).toOption.map (fun o => o.batches.map (fun b => (b.pos, b.bases)))
     = some [([30, 10], some [["Z", "Y"], ["Z", "Z"]]), ([20], some [["X", "Z"]])] := by decide
+
+/-- the hypotheses of `C07_fit_epoch` are satisfiable: 3 rows with a duplicate, bases with two all-Z rows, `pos_batch_size = 2`,
+`neg_batch_size = None`, `randint` over the two reference-basis rows of size `⌈3/2⌉ · 2 = 4` -/
+example : ∃ z out, epochBatches (ρ := Nat) [10, 20, 10] (some [["Z", "Z"], ["X", "Z"], ["Z", "Z"]]) 2 none [2, 0, 1] [1, 0, 0, 1] = .ok out ∧
+    Valid [10, 20, 10] (some [["Z", "Z"], ["X", "Z"], ["Z", "Z"]]) z [2, 0, 1] [1, 0, 0, 1] 2 (effNegB none 2) (ceilDiv 3 2) := by
+  obtain ⟨z, out, _, h2, h3, _⟩ := C07_fit_epoch (ρ := Nat) [10, 20, 10] (some [["Z", "Z"], ["X", "Z"], ["Z", "Z"]]) 2 none
+    [2, 0, 1] [1, 0, 0, 1] (by decide) (by decide) (by decide)
+    (by
+      intro bs h; cases h
+      refine ⟨rfl, ⟨["Z", "Z"], by simp, by simp⟩, ?_⟩
+      intro z hz
+      have : z = [10, 10] := by
+        have h' : extractRefbasis (ρ := Nat) [10, 20, 10] [["Z", "Z"], ["X", "Z"], ["Z", "Z"]] = .ok [10, 10] := rfl
+        rw [h'] at hz; exact (Except.ok.inj hz).symm
+      subst this
+      exact ⟨rfl, by decide⟩)
+    (by intro h; cases h)
+  exact ⟨z, out, h2, h3⟩
 
 /-- the hypothesis of `C07_no_mutation` is satisfiable -/
 example : ∃ h' refs, epochOnHeap (ρ := Nat) ⟨[.samples [10, 20, 10], .bases [["Z"], ["X"], ["Z"]]]⟩ 0 (some 1) 2 none
